@@ -70,7 +70,9 @@ ssize_t HeaderStreamProto::onRecvData(const void *data_ptr, size_t data_size)
         return -2;
     }
 
-    if (content_size + kHeadSize > data_size)   //! 不够
+    //! 注意：不能写成 content_size + kHeadSize > data_size，content_size 来自对端，
+    //! 当它 >= 2^32 - 6 时 32 位加法会回绕，导致后面取到空指针
+    if (content_size > data_size - kHeadSize)   //! 不够
         return 0;
 
     const char *str_ptr = static_cast<const char*>(unpack.fetchNoCopy(content_size));
